@@ -1196,3 +1196,103 @@ pub fn compare_stores(a: &Interp, b: &Interp, rep: &mut CaseReport, _st: &mut Ru
     rep.count("summaries_compared_across_stores", compared);
     rep.class("determinism_compared");
 }
+
+
+// ---------------------------------------------------------------------------------------------
+// HTTP surface: POST /threads/{id}/compaction-auto on a byte copy of the final store. The handler
+// plans and logs the spawn frame synchronously (202 + `planned`) and executes the job on the
+// blocking pool; the same model and the same frame checks apply once job_ended is logged.
+// ---------------------------------------------------------------------------------------------
+
+thread_local! {
+    static HTTP_RT: tokio::runtime::Runtime = rv::runs::runtime(2);
+}
+
+pub fn http_tail(it: &Interp, which: u16, stride: Option<u64>, max_new: Option<u32>, rep: &mut CaseReport, st: &mut RunState) {
+    use axum::http::Method;
+    let candidates: Vec<&str> = it.threads.iter().map(|t| t.id.as_str()).collect();
+    if candidates.is_empty() {
+        return;
+    }
+    let tid = candidates[rv::engine::pick(which, candidates.len())].to_string();
+    let sb = it.sandbox.fork("c09http");
+    let sv = stride.unwrap_or(10_000);
+    let maxn = max_new.unwrap_or(1).clamp(1, 32);
+    if sv == 0 {
+        return;
+    }
+    HTTP_RT.with(|rt| {
+        rt.block_on(async {
+            let auth = rv::runs::Authority::on(sb, None);
+            let sb = &auth.sandbox;
+            for round in 0..2usize {
+                let tag = if round == 0 { "http_auto" } else { "http_auto_repeat" };
+                let m = model_of(sb, &tid);
+                let before = sb.log_bytes();
+                let mut body = json!({"actor_id": "user", "origin": "cli"});
+                if let Some(s) = stride {
+                    body["stride_messages"] = json!(s);
+                }
+                if let Some(n) = max_new {
+                    body["max_new_checkpoints"] = json!(n);
+                }
+                let (status, v) = rv::http::call_json(&auth.router, Method::POST, &format!("/threads/{tid}/compaction-auto"), Some(body)).await;
+                let ctx = json!({"round": round, "thread": tid, "stride": stride, "max_new": max_new, "http_status": status.as_u16(), "message_count_model": m.n()});
+                let plan = m.plan(sv, maxn);
+                let want = plan_set(&plan);
+                rep.class(format!("{tag}:{}", status.as_u16()));
+                if !status.is_success() {
+                    rep.fail(format!("{tag}|unexpected_status"), json!({"ctx": ctx, "body": v}));
+                    return;
+                }
+                if plan_set_of_value(&v["planned"]).as_ref() != Some(&want) {
+                    rep.fail(format!("{tag}|planned_mismatch"), json!({"ctx": ctx, "planned": v["planned"], "planned_model": plan_json(&plan)}));
+                }
+                if plan.is_empty() {
+                    tokio::time::sleep(std::time::Duration::from_millis(5)).await;
+                    let d = delta(sb, &tid, &before, m.frames.len());
+                    if d.bytes != 0 || s(&v, "status") != "noop" {
+                        rep.fail(format!("{tag}|noop_wrote_or_status"), json!({"ctx": ctx, "bytes": d.bytes, "response": v}));
+                    }
+                    rep.class(format!("{tag}:noop"));
+                    return;
+                }
+                if status.as_u16() != 202 || s(&v, "status") != "spawned" {
+                    rep.fail(format!("{tag}|not_spawned"), json!({"ctx": ctx, "response": v}));
+                    return;
+                }
+                let Some(job) = v["job_id"].as_str().map(|x| x.to_string()) else {
+                    rep.fail(format!("{tag}|no_job_id"), json!({"ctx": ctx, "response": v}));
+                    return;
+                };
+                let t0 = std::time::Instant::now();
+                loop {
+                    let ended = sb.truth_values().unwrap_or_default().iter().any(|fr| ty(fr) == T_ENDED && s(fr, "job_id") == job);
+                    if ended {
+                        break;
+                    }
+                    if t0.elapsed() > std::time::Duration::from_secs(30) {
+                        rep.inconclusive("http_job_not_ended");
+                        return;
+                    }
+                    tokio::time::sleep(std::time::Duration::from_millis(3)).await;
+                }
+                let d = delta(sb, &tid, &before, m.frames.len());
+                if !d.prefix_ok {
+                    rep.fail(format!("{tag}|log_not_append_only"), ctx.clone());
+                    return;
+                }
+                if d.log_lines != d.appended.len() {
+                    rep.fail(format!("{tag}|wrote_to_other_stream"), json!({"ctx": ctx, "log_lines": d.log_lines, "thread_frames": d.appended.len()}));
+                }
+                let cks = check_job_frames(sb, &m, &d.appended, &plan, sv, tag, &ctx, rep);
+                st.auto_checkpoints += cks.len() as u64;
+                st.nontrivial = true;
+                if !d.appended.is_empty() && s(&d.appended[0], "job_id") != job {
+                    rep.fail(format!("{tag}|response_job_id"), json!({"ctx": ctx, "response": v, "first_frame": d.appended[0]}));
+                }
+                rep.class(format!("{tag}:job_ran"));
+            }
+        });
+    });
+}
